@@ -267,6 +267,18 @@ pub fn main(args: &[String]) -> i32 {
             crate::c08c::run(sc, &mut out);
             continue;
         }
+        if sc["encdom"].as_bool().unwrap_or(false) {
+            // the big-integer encoder on a value that may not fit the declared width
+            let nb = sc["nbits"].as_u64().unwrap_or(8) as u32;
+            let v = big_of_nat(&sc["val"]);
+            let r = catch_unwind(AssertUnwindSafe(|| AssignedBigUint::<F>::as_public_input(&v, nb)));
+            let (refused, enc) = match r {
+                Ok(e) => (false, nats_json(&e)),
+                Err(_) => (true, json!([])),
+            };
+            writeln!(out, "{}", json!({"ev":"EncDom","nbits":nb,"val":sc["val"],"refused":refused,"enc":enc})).unwrap();
+            continue;
+        }
         if sc["acc"].as_bool().unwrap_or(false) {
             crate::c08a::run(sc, &mut out);
             continue;
